@@ -82,6 +82,21 @@ def gen_history(rng, tree, R, abs_sentinel, n_ops, k=0):
     # a warm-up that makes the interesting inodes known
     for n in [b'd', b'f', b'rel', b'abs', b'reldir', b'up']:
         ops.append({'op': 'lookup', 'p': 0, 'name': n}); ni += 1
+    # FORGET / BATCH_FORGET of the export root (any count) must leave it registered as nodeid 1: afterwards ".." walks from a
+    # subdirectory and from whatever they return must still end at the root (both inode-numbering modes)
+    def root_forget_walk():
+        nonlocal ni
+        ops.append({'op': 'forget', 'i': 0, 'count': 1})
+        ops.append({'op': 'batch_forget', 'l': [(0, 1), (0, 1000)]})
+        ops.append({'op': 'forget', 'i': ('raw', 1), 'count': 2 ** 40})
+        ops.append({'op': 'getattr', 'i': 0, 'h': None})
+        ops.append({'op': 'lookup', 'p': 0, 'name': b'.'}); ni += 1
+        ops.append({'op': 'lookup', 'p': 1, 'name': b'..'}); ni += 1
+        ops.append({'op': 'lookup', 'p': ni - 1, 'name': b'..'}); ni += 1
+        ops.append({'op': 'lookup', 'p': ni - 1, 'name': b'..'}); ni += 1
+        ops.append({'op': 'lookup', 'p': ni - 1, 'name': b'a'}); ni += 1
+        ops.append({'op': 'lookup', 'p': 0, 'name': b'..'}); ni += 1
+    root_forget_walk()
     # every name-taking operation applied to a name that IS a symlink to an outside object (existing file, directory,
     # dangling path; pre-existing or made through SYMLINK), with the open flags rotated over the histories
     cflags = [0x2, 0x201, 0x242, 0xc2, 0x401, 0x20002, 0x42, 0x10002]
@@ -149,6 +164,7 @@ def gen_history(rng, tree, R, abs_sentinel, n_ops, k=0):
         ops.append({'op': 'open', 'i': slot, 'flags': 0x801 | 0x200, 'fuse_flags': 0}); nh += 1
         ops.append({'op': 'setattr', 'i': slot, 'h': None, 'valid': 8, 'mode': 0, 'uid': 0, 'gid': 0, 'size': 0})
         ops.append({'op': 'setattr', 'i': slot, 'h': None, 'valid': 1, 'mode': 0o777, 'uid': 0, 'gid': 0, 'size': 0})
+    root_forget_walk()
     ops.append({'op': 'lookup', 'p': 0, 'name': b'..'}); ni += 1
     ops.append({'op': 'lookup', 'p': 1, 'name': b'..'}); ni += 1
     ops.append({'op': 'lookup', 'p': ni - 1, 'name': b'..'}); ni += 1
@@ -274,7 +290,7 @@ def run_check(tier, seed):
             tree, S, R = gen_sentinel(hrng, sent)
             ops = gen_history(hrng, tree, R, sent, 40 if quick else 80, k)
             hist.append({'k': k, 'top': top, 'sent': sent, 'tree': tree, 'S': S, 'R': R, 'ops': ops})
-        cfgs = [{'xattr': True}, {'xattr': True, 'cache': 'always', 'no_open': True}, {'xattr': True, 'inode_file_handles': True}]
+        cfgs = [{'xattr': True}, {'xattr': True, 'cache': 'always', 'no_open': True, 'use_host_ino': True}, {'xattr': True, 'inode_file_handles': True}, {'xattr': True, 'use_host_ino': True}]
         for mode in ('pt', 'vfs'):
             lines = []
             for hh in hist:
